@@ -3204,6 +3204,11 @@ def groupby_scan(
             array = array.astype(cast_to)
         return array
 
+    if agg.name in ["cumsum", "nancumsum"] and not is_duck_dask_array(by_) and (by_ < 0).any():
+        # refuse here, for every chunking: a block that only holds missing labels would otherwise fail
+        # with an IndexError inside a task, and any other block with "negative indices not supported".
+        raise ValueError(f"{agg.name} does not support missing labels (NaN, NaT or labels not in expected_groups).")
+
     # Made a design choice here to have `preprocess` handle both array and group_idx
     # Example: for reversing, we need to reverse the whole array, not just reverse
     #          each block independently
